@@ -1533,7 +1533,7 @@ class ProgramData:
                         set_to = set_to in ["yes", "on"]
                     option_value = flag_name
                     flag_name = flag_name.upper().replace("-", "_")
-                if flag_name not in ProgramFlag.__members__:
+                if not option_value.isascii() or flag_name not in ProgramFlag.__members__:  # (upper() folds some non-ASCII letters onto ASCII ones)
                     raise RuntimeError("Unknown flag " + option_value)
                 flag_overrides[ProgramFlag[flag_name]] = set_to
             elif option_name in ["h", "help"]:
@@ -1557,7 +1557,7 @@ class ProgramData:
                 cls.dry_run = True
             else:
                 p_option_name = option_name.upper().replace("-", "_")
-                if p_option_name not in ProgramOption.__members__:
+                if not option_name.isascii() or p_option_name not in ProgramOption.__members__:
                     raise RuntimeError("Unknown option " + option_name)
                 try:
                     if type(ProgramOption[p_option_name].default) is int and not (option_value.isascii() and option_value.isdigit()):
